@@ -33,6 +33,14 @@
 // (baseside.go), changes made directly on the base and on the twin, each of
 // which asks every pooled object every tree-reading question before and again
 // after the change; oracle 3 means what the base returns NOW.
+//
+// The instance under test is not alone either: the alphabet holds world-side
+// letters (worldLetters in alphabet.go, worldStep in system.go) that create and
+// use ANOTHER read-only file system, over a base of the other OS type and of
+// the same, at any position of a history; the instance under test is judged
+// as before. And the string arguments that are not paths (temp patterns, Glob
+// and Match patterns) are handed over as written, with the characters the two
+// OS types read differently (rawPatterns in alphabet.go).
 package main
 
 import (
@@ -214,6 +222,17 @@ func main() {
 					det = map[string]any{"text": v.Detail}
 				}
 
+				// a history that ran in a process where earlier histories had made other
+				// instances (everMade in system.go): they are part of its start state
+				if e, ok := det["other_instances_made_earlier_in_this_process"].([]any); ok && len(e) > 0 {
+					h := make([]string, 0, len(e)+len(hist))
+					for _, n := range e {
+						h = append(h, opDesc{Recv: "world", Method: "NewRoFS", Args: []argv{st(fmt.Sprint(n))}}.String())
+					}
+
+					hist = append(h, hist...)
+				}
+
 				obj := map[string]any{"system": system, "history": hist, "op": op, "detail": det, "tier": *tier}
 				rep.Report(kf.Sig(v.Sig), obj)
 
@@ -358,7 +377,7 @@ func main() {
 
 	// methods actually executed, per object kind (from the outcome classes)
 	execMethods := map[string]bool{}
-	viewChanges, refused, refusedOS := 0, 0, 0
+	viewChanges, refused, refusedOS, worldSteps := 0, 0, 0, 0
 
 	for k, n := range outcomes {
 		head := k
@@ -367,6 +386,10 @@ func main() {
 		}
 
 		execMethods[head] = true
+
+		if head == "world.NewRoFS" {
+			worldSteps += n
+		}
 
 		if strings.Contains(k, "+view") {
 			viewChanges += n
@@ -440,20 +463,21 @@ func main() {
 		Coverage: map[string]any{
 			"states": states, "transitions": executed, "traces_validated_against_impl": executed,
 			"evaluations": executed, "distinct_nontrivial": len(outcomes),
-			"rule": "every history of length <= bound over the static alphabet (every avfs.VFS method on the RoFS and on a pooled Sub file system, every avfs.File method on two pooled handle slots; methods enumerated by reflection, small argument domain per parameter - for every mutating method a value that would change something and the value(s) documented or bound to change nothing: Chown/Lchown/File.Chown with the owner the node has and with -1 for both ids (thorough: for either), Chtimes with the zero time, Chmod/File.Chmod with the mode the node has, Truncate/File.Truncate with the size the file has, Write/WriteString/WriteAt of no bytes, Link/Rename/Symlink of a name onto itself and onto another link of the same file, SetUMask of the mask in force, MkdirAll of an existing directory, RemoveAll of a missing name; plus the base-side letters: a handful of changes made directly on the base and identically on the twin, not through the wrapper - a file with a second link grows, shrinks, changes mode, is renamed, loses a link, a directory appears in a listed directory; thorough: also mtime, a file losing its last name, a new file, a directory renamed or removed with its content, a file of the second volume) executed on a fresh real RoFS over a real base with a twin base as reference; " +
+			"rule": "every history of length <= bound over the static alphabet (every avfs.VFS method on the RoFS and on a pooled Sub file system, every avfs.File method on two pooled handle slots; methods enumerated by reflection, small argument domain per parameter - for every mutating method a value that would change something and the value(s) documented or bound to change nothing: Chown/Lchown/File.Chown with the owner the node has and with -1 for both ids (thorough: for either), Chtimes with the zero time, Chmod/File.Chmod with the mode the node has, Truncate/File.Truncate with the size the file has, Write/WriteString/WriteAt of no bytes, Link/Rename/Symlink of a name onto itself and onto another link of the same file, SetUMask of the mask in force, MkdirAll of an existing directory, RemoveAll of a missing name; plus the base-side letters: a handful of changes made directly on the base and identically on the twin, not through the wrapper - a file with a second link grows, shrinks, changes mode, is renamed, loses a link, a directory appears in a listed directory; thorough: also mtime, a file losing its last name, a new file, a directory renamed or removed with its content, a file of the second volume; plus the world-side letters: another read-only file system - rofs.New over a freshly built MemFS, Linux-typed and Windows-typed (thorough: also over an OrefaFS of either type), holding the same tree - is created next to the instance under test and used (Chdir, SetUMask, a refused Mkdir and Chown, Sub and calls on the view, Open, a refused Write), at any position of a history, and stays alive; the base under test is snapshotted around the letter and every later call on the instance under test is judged as without it (world_side_steps; per system: alphabet.<system>.world_side_letters); the string arguments that are not paths are handed over as written under either OS type: CreateTemp/MkdirTemp with the patterns alphabet.<system>.temp_patterns_as_written (empty, '*' only, a backslash, a '/') in every directory of their domain, Glob and Match with patterns holding a backslash (a separator on a Windows-typed base, an escape or an ordinary character on a Linux-typed one); a handle handed out by a mutating call that was not refused is asked Write, WriteString, Truncate and Chmod at once, with another snapshot of the base (kind writable-handle)) executed on a fresh real RoFS over a real base with a twin base as reference; " +
 				"a base-side letter asks every pooled object (the RoFS, the pooled Sub file system, the pooled handles) every question of the alphabet that reads the tree and does not move its receiver (file system: Stat, Lstat, ReadDir, ReadFile, Readlink, EvalSymlinks over the path domain, thorough: also Glob and WalkDir; handle: Stat, Name, ReadAt; per system: alphabet.<system>.questions_asked_around_a_base_side_letter) BEFORE the change and again AFTER it: after the change every answer must equal the answer of the twin, the FileInfo/DirEntry values handed out before the change must say what the twin's say, and the questions must leave the base as the change left it; " +
 				"the harness uses every value it is given as its own: after a call has returned and its results have been read, every slice it returned ([]byte, []string of Readdirnames/Glob, []fs.DirEntry of ReadDir, whole listings and pieces read with n > 0 alike) is overwritten element by element up to its CAPACITY (what sorting, renaming an element or appending to a piece does), on the wrapper side (returned_slices_written_over) and on the twin alike; around every call that carries a slice or a function across the wrapper (quick) / around every call (thorough), and around every base-side letter, the snapshot also holds what the base answers its own readers, asked directly on the base: a handle of every directory read at once by Readdirnames and another by ReadDir (thorough: also both in pieces of one entry, ReadDir of the file system, Glob dir/*, ReadFile of every file, Readlink of every link) - these answers must be the same before and after the call (change class 'answers'; calls_with_answers_of_the_base_in_the_snapshot); " +
 				"bases: MemFS and OrefaFS, each Linux-typed and Windows-typed (<kind>@Windows; same tree on volume C:, paths spelled with volume and backslashes, plus a rooted path without volume; the Windows-typed MemFS holds a second volume D: with a directory and a file, which are operands of every path method, of Sub, WalkDir, Glob, Rel, SameFile and of the second operand of Link/Rename/Symlink); " +
 				"transitions = calls actually executed (alphabet operations whose receiver slot is empty are skipped and counted apart; a base-side step counts once, its questions (each asked before and again after the change) are counted in base_side_questions); distinct_nontrivial = distinct (object kind, method, outcome class) triples observed",
 			"samples":                      samples,
 			"exhaustive":                   exh,
-			"bound":                        fmt.Sprintf("histories of length <= %d (completed %d); a base-side letter may stand at every position of a history", d, depthDone),
+			"bound":                        fmt.Sprintf("histories of length <= %d (completed %d); a base-side letter and a world-side letter (another read-only file system created and used) may stand at every position of a history", d, depthDone),
 			"systems":                      all,
 			"alphabet":                     alphaInfo,
 			"steps_including_skips":        steps,
 			"skipped_empty_receiver":       skipped,
 			"base_side_steps":              baseSteps,
 			"base_side_questions":          questions,
+			"world_side_steps":             worldSteps,
 			"returned_slices_written_over": lent,
 			"calls_with_answers_of_the_base_in_the_snapshot":        asked + baseSteps,
 			"mutating_calls_refused_with_permission_error":          refused,
@@ -478,6 +502,7 @@ func main() {
 			"after a change of the base that came about through the wrapper (or through a question asked around a base-side letter) the state is not expanded further; after a base-side letter the search goes on, and the snapshot the following calls are held against is the one taken after it",
 			"base-side letters are applied to the base and to the twin by the same call, as administrator, with absolute operands; both must answer alike and their snapshots must be equal afterwards (anything else is a harness error, never a verdict). The clock of both instances is the wall clock: every node whose modification time moved is given fsx.FixedTime+60s on both sides before anything is compared, so a stale modification time is told from a live one, but the time a change leaves behind is not itself observed. The questions around a base-side letter are asked on the transition being explored, not again each time lib/bfs re-executes the history to rebuild the state; what the questions answer BEFORE the change is compared by the ordinary steps of the same operations in the same state",
 			"random part of temp names is supplied by the harness (deterministic)",
+			"world-side letters: the other instance is built by the steps that build the base under test and is used by a fixed sequence of calls whose results are not judged (it is not the instance under test; a panic is reported); which other instances exist is part of the state key as a set (a second instance over the same kind of base adds nothing). The histories of one exploration are executed one after the other in the same worker processes: process-wide state that a history leaves behind (the very defect the letters look for) also reaches the histories executed after it in that process, so a violation may be observed on a history that does not itself hold the letter: it is then reported with the letters of the instances made earlier in the process in front of its history (they were part of its start state; the history shown can then be longer than the bound), so that the replay reproduces in a fresh process",
 			"base and twin are built by the same deterministic steps; their dumps are compared after the first construction in every process (and with the full public-API dump by the parent), not after every construction. Without a time budget (quick tier) the four explorations run side by side, each with its own workers",
 		},
 		Violations: rep.NewCount(),
